@@ -15,10 +15,33 @@ def T(tier, quick, thorough):
 
 
 def c02_jobs(tier):
+    d = {"keys": T(tier, 2, 4), "inputs": T(tier, 3, 8)}
     return [
         {"variant": "opt", "sub": "c02", "shards": T(tier, 2, 12), "cases": 1, "weight": 1,
          "args": {"inputs": T(tier, 3, 12), "items": T(tier, 1000, 20000)}, "timeout": T(tier, 1800, 7200)},
+        # determinism clause: same triples, separate processes / heap fill patterns / builds
+        {"variant": "opt", "sub": "c02d", "shards": 1, "args": dict(d, model=1), "env": {"MALLOC_PERTURB_": "0"}, "timeout": 3600},
+        {"variant": "opt", "sub": "c02d", "shards": 1, "args": dict(d, guards=1), "env": {"MALLOC_PERTURB_": "255"}, "timeout": 3600},
+        {"variant": "asan", "sub": "c02d", "shards": 1, "args": d, "timeout": 3600},
+        {"variant": "port", "sub": "c02d", "shards": 1, "args": d, "env": {"MALLOC_PERTURB_": "85"}, "timeout": 3600},
     ]
+
+
+def c02_post(agg, records, violations, failures, tier):
+    by_id = {}
+    for r in records:
+        if r.get("type") == "c02d":
+            by_id.setdefault(r["id"], {})["%s#%d" % (r["_variant"], r["_job"])] = r["value"]
+    joined = 0
+    for cid, d in sorted(by_id.items()):
+        if len(d) < 4:
+            failures.append("C02 determinism record %s present in only %d processes" % (cid, len(d)))
+            continue
+        joined += 1
+        if len(set(d.values())) != 1:
+            violations.append(("C02:determinism:digest-varies-between-processes-or-builds", {"id": cid, "digests": d, "_cmd": ["rxv", "c02d"], "_variant": "opt"}))
+    agg["counters"]["determinism_triples_joined_across_4_processes"] = joined
+    agg["floors"].add("determinism_triples_joined_across_4_processes")
 
 
 HOOK_COMMITS = ["9929591", "7ba38e4", "8db2741"]
@@ -55,8 +78,9 @@ CHECKS = {
                       "Exploration over boundary-length and random inputs is the right level: the statement is a universally quantified equality of pure functions that no finite run can prove.",
         "level_note": "Trusted base: the reference model in /verif/model (self-tested against hardware AES, host FPU, FIPS-197 C.1, hashlib.blake2b). Held on the triples explored only.",
         "jobs": c02_jobs,
+        "post": c02_post,
         "rule": "cases are (key, input, version) triples drawn from structured boundary lengths first (key 0/1/12/59/60/61/64/200..., input 0/1/63/64/65/127/128/129/1000/100000...) then random; "
-                "a case is non-trivial when all eight programs ran and digest, 8 program buffers and 8 register files were compared with the reference model; distinct by hash of the triple",
+                "a case is non-trivial when all eight programs ran and digest, 8 program buffers and 8 register files were compared with the reference model; distinct by hash of the triple; determinism clause: a further set of triples is hashed by four separate processes (opt build under MALLOC_PERTURB_ 0 and 255 - the latter with the garbage-filling guard allocator -, the asan build, the portable build) and all digests must agree with each other and with the model",
         "assumptions": MODEL_ASSUMPTIONS,
         "floors": ["cache_bytes_compared", "dataset_items_compared", "programs_compared", "regfiles_compared", "digests_compared_model", "v1_hashes", "v2_hashes"],
     },
